@@ -349,12 +349,21 @@ def _in_fork(fn):
     arguments) cannot leak from one run into the next, so a run stays a pure
     function of its seed whatever the repository does with global state."""
     import pickle
+    import signal
+    import tempfile
     r, w = os.pipe()
+    dump = tempfile.NamedTemporaryFile(prefix="verif-stack-", delete=False)
+    dump.close()
     pid = os.fork()
     if pid == 0:
         code = 0
         try:
             os.close(r)
+            # lets the parent ask "where are you?" before killing a run that
+            # exceeded its CPU budget
+            _dumpf = open(dump.name, "w")
+            faulthandler.register(signal.SIGUSR1, file=_dumpf,
+                                  all_threads=False)
             try:
                 data = pickle.dumps(("ok", fn()))
             except KeyboardInterrupt:
@@ -393,8 +402,32 @@ def _in_fork(fn):
         except (OSError, IndexError, ValueError):
             cpu = 0.0
         if cpu > RUN_CPU_LIMIT_S:
-            verdict = ("timeout", f"run consumed more than "
-                       f"{RUN_CPU_LIMIT_S:.0f} s of CPU time")
+            # whose loop is it?  Ask the child for its stack: the innermost
+            # frame that belongs to the repository or to /verif decides
+            who, where = "unknown", ""
+            try:
+                os.kill(pid, signal.SIGUSR1)
+                time.sleep(1.0)
+                src = os.path.realpath(os.path.join(REPO_ROOT, "src"))
+                with open(dump.name) as f:
+                    for line in f:
+                        if 'File "' not in line:
+                            continue
+                        fn = os.path.realpath(line.split('File "')[1]
+                                              .split('"')[0])
+                        if fn.startswith(src + os.sep):
+                            who, where = "repo", line.strip()
+                            break
+                        if fn.startswith(VERIF_ROOT + os.sep):
+                            who, where = "harness", line.strip()
+                            break
+            except OSError:
+                pass
+            msg = (f"run consumed more than {RUN_CPU_LIMIT_S:.0f} s of CPU "
+                   f"time; innermost frame: {where or 'unknown'}")
+            verdict = ("timeout", msg) if who == "repo" else (
+                "err", "CPU limit hit inside the harness, not inside the "
+                "system under test: " + msg)
             break
         if time.monotonic() - t0 > RUN_WALL_LIMIT_S:
             verdict = ("err", f"run idle for {RUN_WALL_LIMIT_S:.0f} s "
@@ -407,8 +440,16 @@ def _in_fork(fn):
         except OSError:
             pass
         os.waitpid(pid, 0)
+        try:
+            os.unlink(dump.name)
+        except OSError:
+            pass
         return verdict
     _pid, status = os.waitpid(pid, 0)
+    try:
+        os.unlink(dump.name)
+    except OSError:
+        pass
     data = b"".join(chunks)
     if not data:
         return ("err", f"forked run died (wait status {status})")
